@@ -8,6 +8,7 @@ import (
 	"strconv"
 	"strings"
 	"time"
+	"unicode/utf8"
 
 	"go.pennock.tech/tabular"
 )
@@ -272,6 +273,10 @@ var textCodes = []string{"VS_0", "VG_0", "VE_0", "VSG_0", "VSGE_0", "PS_0", "PGE
 
 // WrapText returns an item whose documented text form is s.
 func (r *R) WrapText(s string) ItemSpec {
+	if ch, size := utf8.DecodeRuneInString(s); size > 0 && size == len(s) && ch != utf8.RuneError && r.Chance(1, 2) {
+		// a one-character text stored as a rune item (a rune is that character)
+		return ItemSpec{K: "rune", Num: int64(ch)}
+	}
 	switch r.Intn(10) {
 	case 0, 1:
 		code := Pick(r, textCodes)
@@ -290,6 +295,10 @@ func (r *R) WrapText(s string) ItemSpec {
 		if it.Ptr && r.Chance(1, 3) {
 			// starts life with another text and is mutated (+Update) to this one before the judged render
 			other := r.Str(FAscii|FNewline|FWide, 4)
+			if same := sameShape(s); same != s && r.Bool() {
+				// the earlier text has the same line count and the same widths as the final one (letters and digits rotated)
+				other = same
+			}
 			pre := Fields{S: other, G: other, E: other, HV: f.HV, WV: f.WV}
 			it.Pre = &pre
 		}
@@ -303,6 +312,22 @@ func (r *R) WrapText(s string) ItemSpec {
 	default:
 		return StrItem(s)
 	}
+}
+
+// sameShape returns a text of the same shape (same bytes except that ASCII letters and digits are rotated by one).
+func sameShape(s string) string {
+	b := []byte(s)
+	for i, c := range b {
+		switch {
+		case c >= 'a' && c <= 'z':
+			b[i] = 'a' + (c-'a'+1)%26
+		case c >= 'A' && c <= 'Z':
+			b[i] = 'A' + (c-'A'+1)%26
+		case c >= '0' && c <= '9':
+			b[i] = '0' + (c-'0'+1)%10
+		}
+	}
+	return string(b)
 }
 
 // AnyItem draws from the whole zoo (used by C01 and, sparsely, by others).
